@@ -33,6 +33,58 @@ CLAIMED = {
          "each input's verdict must equal the reference interpreter's verdict on the mutated transaction, which is itself cross-checked against a field-level commitment view on every case. "
          "Histories of <=2 (3) mutations with undo and repeated validation on one object must agree with a fresh object parsed from the current bytes after every step.",
          "Trusted: vf/ref/script.py + sighash.py; commitment view in c06.py (a disagreement between the two is MODEL-INVALID, not a violation)."),
+
+ "C01": ("exhaustive small-scope exploration on toy prime-order curves + boundary products on production curves, every backend, vs RFC 6979 / ECDSA reference",
+         "On every toy curve y^2=x^3+ax+b (p=3 mod 4, prime order, p<=23/31) built with the real Generator: all d x a z family that exercises bits2int (nonce = RFC 6979 reference), sign/sign_with_recid (valid, = reference when the first nonce is usable, retry terminates), "
+         "verify on the FULL product Q x z x (r,s) in [0,n+1]^2 against the property's predicate, recovery for every (z,r,s,y_parity). On secp256k1/secp256r1, pure Python and OpenSSL-accelerated: 8x9 key x hash boundary product, crafted (r,s) grids, keys chosen to make the sum infinity, Key.sign/verify DER wrappers, nonce separation.",
+         "Trusted: vf/ref/ec.py, rfc6979.py (RFC 6979 A.1/A.2.3/A.2.5 vectors, exhaustive toy-curve self-consistency). 256-bit values outside the boundary alphabets and the absent libsecp256k1 backend are not covered."),
+ "C02": ("exhaustive enumeration of the group on toy curves (all pairs, triples, scalars, blinding factors) + boundary scalars on production curves, pure vs accelerated",
+         "All ordered pairs of points (with unreduced representatives and infinity) for +,-,negation; all n^3 triples (associativity) for n<=43 (61); every point x every k in [-2n-1,2n+1] and 2^256-ish scalars on Curve and Generator; "
+         "Generator multiplication for EVERY blinding factor 0..n-1 x every k; points_for_x for every x in [0,p); the generator object used as a point operand. secp256k1/secp256r1 (BLS12-381 in thorough): 79 scalars x 3 points x 9 operations, special sums, 7 blinding factors, ECDH commutation, identical coordinates pure vs OpenSSL.",
+         "Trusted: vf/ref/ec.py (three independent multiplication methods, group axioms, published multiples). Curves with p != 3 mod 4 or composite order are outside the property."),
+ "C10": ("exhaustive grids over candidate encodings (length x prefix x coordinate class) vs canonical SEC / strict DER / WIF references",
+         "SEC: every length 0..70 x all 256 prefix bytes x 10 x-classes x 5 y-classes through keys.public / Key.from_sec / sec_to_public_pair: accepted iff canonical, and then re-encodes identically. WIF: 9 exponents x 2 flags x 51 networks (text, parse-back, sec, hash160, address; out-of-range refused with the documented error). "
+         "DER: 12x12 (r,s) values x every deletion / cut / insertion / trailing byte / long-form variant.",
+         "Trusted: vf/ref/sec.py, der.py, base58 reference. GRS-family WIF/address need the absent groestl hash and are reported as absent."),
+ "C07": ("deviation-bounded exhaustive transaction shapes x every witness mixture x coin classes vs independent wire reference",
+         "Transactions within <=2 (3) deviations of a base over 10 boundary axes (script lengths across 252/253/65535/65536, 64-bit amounts, versions, sequences...) x every mixture of 8 witness kinds over 1..3 inputs (+252/253-input shapes) x BTC/LTC/BCH/BTG/GRS: as_bin = reference bytes, parse o serialise = id both ways, hex form, id/w_id definition, unspents extension; "
+         "Spendables: full product of 7 boundary fields x text/dict/binary forms.",
+         "Trusted: vf/ref/wire.py (all Core tx vectors, block 80971, BIP143 example, published txids)."),
+ "C14": ("exhaustive subsets and single-position corruptions of honest BIP37 proofs; boundary products for headers/blocks/merkle lists",
+         "Headers: full product of 6 boundary fields x 3 coins + set_nonce/assignment history (id = dSHA256 of 80 bytes). Blocks of 1..6 (12) txs with witness/large txs at every position and every alteration (must raise on root mismatch). merkle() on 1..33 (130) hashes. "
+         "Merkleblock: n=1..11 (15), EVERY subset of matched txs, honest proof accepted with exactly the matched ids; EVERY single-position corruption (hash bit flips, removal, insertion, duplication, padding bit, root) rejected.",
+         "Trusted: vf/ref/merkle.py honest builder+verifier (roots from pycoin/merkle.py test data; builder o verifier identity for all subsets n<=7)."),
+ "C16": ("full / deviation-bounded products of typed field alphabets for all 28 message types vs an independent layout table",
+         "Every message name the library defines x boundary alphabets per declared field type (integers, compact sizes, 6-byte ids, optional bool, strings across 252/253/65536, IPv4/IPv6 addresses x ports, inv items, embedded tx/header/block, arrays of length 0/1/2/253): full product when <=50k (200k) else deviation <=2 (3). "
+         "pack = reference bytes; parse(pack) = same field values; layout of every message cross-checked.",
+         "Trusted: vf/ref/wire.py MESSAGES table (protocol documentation examples)."),
+ "C20": ("full product of boundary outputs x outpoint labels x script lengths x coins vs reference CheckTransaction",
+         "0..3 inputs over 7 outpoint labels (incl. null, (0^32,0), duplicates at any two positions, near-duplicates) x coinbase script lengths {0,1,2,3,99,100,101} x 0..3 (4) outputs over 10 values around MAX_MONEY (totals crossing only cumulatively) x 5 coins; stripped/total size families at 999999/1000000/1000001. "
+         "check() rejects exactly the listed defects with ValidationFailureError, accepts the rest (size band between stripped and total left unconstrained), is_coinbase, bad_solution_count for coinbase, bytes unchanged.",
+         "Trusted: vf/ref/wire.py check_transaction (tx_valid accepted, tx_invalid categories rejected for the right reason)."),
+ "C09": ("exhaustive path/index alphabets + Mode S histories of the sub-key cache vs BIP32 / Electrum reference",
+         "6 seeds x every path of depth <=2 (3) over {0,1,2^24-1,2^24,2^31-1}x{normal,hardened} x spellings: every field and both text forms = reference; public derivation = public half; hardened from public refused. Range grammar: all strings of <=2 (3) components. Text round trip on all 51 networks x depth {0,1,255} x child {0,2^31,2^32-1}, bip49/84 variants, cross-kind refusal. "
+         "Cache: all 2x1884 histories of <=3 subkey() calls on one node must equal fresh derivation. Electrum commutation.",
+         "Trusted: vf/ref/bip32.py (BIP32 vectors 1-3). I_L>=n / zero-key retry branches unreachable by enumeration; GRS-family text needs the absent groestl hash."),
+ "C13": ("exhaustive small value lists x output arrangements x every pool value; every satoshi amount up to 2e5 (2e6) + structured large amounts",
+         "create_tx over value lists of length 1-3 x every arrangement of <=4 unspecified and <=2 fixed outputs x every fee putting the split pool at -2..3j+2: outputs = reference split (positive, differ by <=1, earlier get remainder), outputs+fee = inputs, fee() identity, input/spendable pairing, errors when insufficient; spendable forms; validate_unspents with every single discrepancy x database fault; BTC/mBTC conversion exact both ways.",
+         "Trusted: vf/ref/money.py (integer-only arithmetic)."),
+ "C17": ("exhaustive products of signer x message x verifier and of crafted signature bytes vs reference recovery",
+         "51 networks x 10 signers x 11 messages: sign -> verify (key and address) -> recover exactly the signer's pair and compression flag; armoured form round trip under the property's side conditions. BTC/XTN/DOGE: full cross product signer x (verifier key|address, message): verifies only for the signer. "
+         "Totality: base64 of 256 first bytes x 9 r values x 7 s values, every length 0..70, malformed texts: verify returns a bool and agrees with the reference verdict.",
+         "Trusted: vf/ref/msgsig.py (libsecp-style compact recovery; a real-world signature vector)."),
+ "C19": ("exhaustive short messages + boundary lengths in two configurations; Mode S insertion orders for the Bloom filter",
+         "All 65793 messages of length <=2, lengths 3..300 (2000, 1e6) x fills, padding boundaries: contrib ripemd160 = hashlib = independent reference; hash160/double_sha256 compositions; the same grid in a child interpreter with PYCOIN_USE_PYTHON_RIPEMD160=1 (selection asserted). murmur3: all inputs <=2 bytes and lengths 3..40 x 161 seeds incl. >32-bit. "
+         "BloomFilter: sizes x function counts x tweaks x all sequences of <=3 insertions: filter bytes = BIP37 reference after every insertion.",
+         "Trusted: vf/ref/ripemd160.py (written from the paper), murmur3.py (published vectors + Core bloom tests)."),
+ "C08": ("exhaustive grids over networks x kinds x payload lengths, all ordered network pairs, template mutations and all short scripts",
+         "All 51 registered networks: script<->address round trip for 5 kinds x 7 payloads; key.address(); acceptance grid (every Base58 prefix x near-miss prefixes x payload length 0..40; every HRP x version 0..17 x program length 0..41 x bech32/bech32m x padding/case variants): accepted strings have the right length and re-encode identically; "
+         "every address of network A offered to every network B (51x51); classification: 12 templates x every single-token mutation over a 54-token alphabet + every script of <=3 (4) tokens: reported standard only if rebuilding reproduces the bytes.",
+         "Trusted: vf/ref/addr.py (BIP173/350 vectors, known addresses) and its pinned prefix table. GRS family: groestl hash absent."),
+ "C18": ("exhaustive string grids x all 31 text entry points x all networks; shared-cache histories",
+         "Every (network, entry point, text): checksummed Base58 with each prefix and near-miss x boundary payload lengths x shaped payloads (WIF/extended-key contents in and out of range), bech32 grid with own/near/foreign HRPs, colon and numeric forms, junk/unicode/long strings: never raises; returned objects re-serialise and re-parse equal; wrong-length/out-of-range payloads refused; kinds kept apart. "
+         "Mode S: all ordered pairs of entry points on one shared parseable_str vs a fresh str.",
+         "Trusted: vf/ref/addr.py. Two recorded known findings (version/key mismatch of extended keys; disassembly of undefined opcodes)."),
 }
 NOT_YET = "check not built yet (work in progress; see DESIGN.md section 5 for the planned exploration)"
 
